@@ -844,20 +844,89 @@ Proof.
     assert (Hf128 : 128 <=? (if fmt then flag else 1 + flag) = false).
     { unfold flag. try rewrite (proj2 (N.eqb_eq _ _) HX0). destruct fmt; reflexivity. }
     rewrite Hf128. apply lenN_zero in HX0. fold X in Hfinal. rewrite HX0 in Hfinal.
-    cbn [apply_assigns] in Hfinal. Show. rewrite Hfinal. reflexivity.
+    cbn [apply_assigns] in Hfinal. fold M in Hfinal. rewrite Hfinal. reflexivity.
   - destruct (enc_extra_bytes X names) as [eb| | |] eqn:Eb; cbn [obind]; try discriminate.
     intros Hb; inversion Hb; subst bs; clear Hb.
     rewrite <- app_assoc.
     rewrite M_encoding_read_unfold, Hhd, Hmain. cbn [obind].
     assert (Hf128 : 128 <=? (if fmt then flag else 1 + flag) = true).
     { unfold flag. try rewrite (proj2 (N.eqb_neq _ _) HX0). destruct fmt; reflexivity. }
-    rewrite Hf128. rewrite <- app_assoc. cbn [app rd_u8].
+    rewrite Hf128. cbn [app rd_u8].
     assert (HXne : X <> []) by (intros E; rewrite E in HX0; cbn in HX0; lia).
     pose proof (X_len enc names Hlen Hgids Hnames HXne) as HXl. fold X in HXl.
     replace (lenN X mod 256) with (lenN X) by lia.
     replace (N.to_nat (lenN X)) with (length X) by (rewrite lenN_length; lia).
     rewrite (enc_sups_apply X names tail _ (1 + M) eb Eb Huniq Hnames).
-    + fold X in Hfinal. rewrite Hfinal. reflexivity.
+    + fold X in Hfinal. fold M in Hfinal. rewrite Hfinal. reflexivity.
     + exact (X_nodup enc names Hlen Hgids Hnames).
     + intros c g Hin. exact (X_pre enc names Hlen Hgids Hnames Hcodes c g Hin).
+Qed.
+
+(* ---------- totality of the reader ---------- *)
+
+Definition okl {A} (n : nat) (o : outcome (list N * A)) : Prop :=
+  match o with Ok (r, _) => length r = n | Err => True | Panic | OutOfFuel => False end.
+
+Lemma enc_fmt0_total cs : forall res cur, okl (length res) (enc_fmt0 cs res cur).
+Proof.
+  induction cs as [|c r IH]; intros res cur; cbn [enc_fmt0]; [reflexivity|].
+  destruct (negb (get_nth res c =? 0)); [exact I|].
+  specialize (IH (set_nth res (N.to_nat c) cur) (cur + 1)). rewrite set_nth_length in IH. exact IH.
+Qed.
+
+Lemma enc_range_total k : forall j ncs res cur, okl (length res) (enc_range k j ncs res cur).
+Proof.
+  induction k as [|k IH]; intros j ncs res cur; cbn [enc_range]; [reflexivity|].
+  destruct (ncs <=? cur); [exact I|]. destruct (negb (get_nth res j =? 0)); [exact I|].
+  specialize (IH (j + 1) ncs (set_nth res (N.to_nat j) cur) (cur + 1)). rewrite set_nth_length in IH. exact IH.
+Qed.
+
+Lemma enc_fmt1_total n : forall ncs inp res cur,
+  match enc_fmt1 n ncs inp res cur with
+  | Ok (r, _, _) => length r = length res | Err => True | Panic | OutOfFuel => False end.
+Proof.
+  induction n as [|n IH]; intros ncs inp res cur; cbn [enc_fmt1]; [reflexivity|].
+  destruct (rd_u8 inp) as [[first r1]|]; [|exact I].
+  destruct (rd_u8 r1) as [[nLeft r2]|]; [|exact I].
+  destruct (255 <? first + nLeft); [exact I|].
+  pose proof (enc_range_total (N.to_nat (nLeft + 1)) first ncs res cur) as T.
+  destruct (enc_range (N.to_nat (nLeft + 1)) first ncs res cur) as [[r c]| | |]; cbn [obind okl] in *; try tauto.
+  cbn [fst snd]. specialize (IH ncs r2 r c).
+  destruct (enc_fmt1 n ncs r2 r c) as [[[r' c'] r3]| | |]; try tauto. lia.
+Qed.
+
+Lemma enc_sups_total n : forall cs inp res cur, okl (length res) (enc_sups n cs inp res cur).
+Proof.
+  induction n as [|n IH]; intros cs inp res cur; cbn [enc_sups]; [reflexivity|].
+  destruct (rd_u8 inp) as [[code r1]|]; [|exact I].
+  destruct (negb (get_nth res code =? 0)); [exact I|].
+  destruct (rd_u16 r1) as [[sid r2]|]; [|exact I].
+  destruct (cur <=? sid_lookup sid 0 cs 0); [exact I|].
+  destruct (sid_lookup sid 0 cs 0 =? 0); [apply IH|].
+  specialize (IH cs r2 (set_nth res (N.to_nat code) (sid_lookup sid 0 cs 0)) cur).
+  rewrite set_nth_length in IH. exact IH.
+Qed.
+
+Lemma encoding_read_total_gen inp cs : okl 256 (M_encoding_read inp cs).
+Proof.
+  rewrite M_encoding_read_unfold.
+  destruct (rd_u8 inp) as [[format r0]|]; [|exact I].
+  assert (Hm : match read_main format r0 cs with
+               | Ok (r, _, _) => length r = 256%nat | Err => True | Panic | OutOfFuel => False end).
+  { unfold read_main. destruct (format mod 128 =? 0).
+    - destruct (rd_u8 r0) as [[nCodes r1]|]; [|exact I].
+      destruct (lenN cs <=? nCodes); [exact I|].
+      destruct (splitN r1 nCodes) as [[codes r2]|]; [|exact I].
+      pose proof (enc_fmt0_total codes (repeat 0 256) 1) as T.
+      destruct (enc_fmt0 codes (repeat 0 256) 1) as [[r c]| | |]; cbn [obind okl fst snd] in *; try tauto;
+        try (rewrite repeat_length in T; exact T).
+    - destruct (format mod 128 =? 1); [|exact I].
+      destruct (rd_u8 r0) as [[nRanges r1]|]; [|exact I].
+      pose proof (enc_fmt1_total (N.to_nat nRanges) (lenN cs) r1 (repeat 0 256) 1) as T.
+      destruct (enc_fmt1 (N.to_nat nRanges) (lenN cs) r1 (repeat 0 256) 1) as [[[r c] r3]| | |]; try tauto;
+        try (rewrite repeat_length in T; exact T). }
+  destruct (read_main format r0 cs) as [[[res cur] r3]| | |]; cbn [obind]; try tauto.
+  destruct (128 <=? format); [|exact Hm].
+  destruct (rd_u8 r3) as [[nSups r4]|]; [|exact I].
+  rewrite <- Hm. apply enc_sups_total.
 Qed.
